@@ -330,9 +330,19 @@ fn stmt(rng: &mut Rng, a: &mut Asm, cfg: &StructCfg, depth: u32, budget: &mut i3
         }
         (x, y)
     };
-    let choice = match rng.below(if depth < cfg.max_depth { 22 } else { 15 }) {
+    let choice = match rng.below(if depth < cfg.max_depth { 26 } else { 17 }) {
         14 if depth >= cfg.max_depth => 19,
-        20 | 21 => if rng.coin() { 19 } else { 20 },
+        15 if depth >= cfg.max_depth => 22,
+        16 if depth >= cfg.max_depth => 23,
+        20 | 21 => {
+            if rng.coin() {
+                19
+            } else {
+                20
+            }
+        }
+        24 => 22,
+        25 => 23,
         x => x,
     };
     match choice {
@@ -554,6 +564,61 @@ fn stmt(rng: &mut Rng, a: &mut Asm, cfg: &StructCfg, depth: u32, budget: &mut i3
                 a.output(t);
                 a.clear(t);
                 a.clear(y);
+            });
+        }
+        22 => {
+            // y = k*x for a run-time x and a constant k on an encoding boundary (imm8/imm32, powers
+            // of two), then count y down printing it: the trip count exposes every bit of y.
+            // (An algebraic zero-test does not work here: the optimiser proves k*x - k1*x - k2*x = 0.)
+            let (x, y) = two(rng);
+            let t = k + rng.range(0, cfg.scratch - 1);
+            let kk = *rng.pick(&[2i64, 3, 7, 8, 15, 16, 17, 31, 32, 33, 63, 64, 65, 127, 128, 129, -127, -128, -129]);
+            if rng.chance(2, 3) {
+                a.input(x);
+            }
+            a.clear(y);
+            a.while_(x, |a| {
+                a.add(y, kk);
+                a.add(t, 1);
+                a.add(x, -1);
+            });
+            a.while_(t, |a| {
+                a.add(x, 1);
+                a.add(t, -1);
+            });
+            if kk < 0 {
+                // make it positive again so that the countdown is short when all is well
+                a.while_(x, |a| {
+                    a.add(y, -2 * kk);
+                    a.add(t, 1);
+                    a.add(x, -1);
+                });
+                a.while_(t, |a| {
+                    a.add(x, 1);
+                    a.add(t, -1);
+                });
+            }
+            a.while_(y, |a| {
+                a.output(y);
+                a.add(y, -1);
+            });
+        }
+        23 => {
+            // a real loop whose body ends in an `if` that adjusts the loop's own condition cell
+            let (c, f) = two(rng);
+            let adj = *rng.pick(&[-1i64, -1, 1, 2, -2]);
+            a.input(f);
+            a.add(c, 1);
+            a.while_(c, |a| {
+                a.input(c);
+                a.output(c);
+                if rng.chance(1, 3) {
+                    stmt(rng, a, cfg, depth + 1, budget);
+                }
+                a.while_(f, |a| {
+                    a.add(c, adj);
+                    a.clear(f);
+                });
             });
         }
         _ => {
